@@ -174,6 +174,20 @@ def family(tier, ks):
             qb.append((a, b, c, d))
     rnd.shuffle(qa)
     rnd.shuffle(qb)
+    # must-have pairs: a resource written by a task that also claims a table, then read / written by
+    # the next one (the run-time add-on check has to refuse it), both orders
+    def find(views, res):
+        for i, k in enumerate(ks):
+            if sorted(k["views"]) == sorted(views) and sorted(k["res"]) == sorted(res) and not k["entry"] and not k["par"]:
+                return i
+        raise KeyError((views, res))
+    ra_w = find([("S", "ref")], [("RA", "mut")])
+    ra_r = find([("W", "mut")], [("RA", "ref")])
+    rb_w = find([("W", "mut")], [("RB", "mut")])
+    rb_r = find([("S", "ref")], [("RB", "ref")])
+    rb_w2 = find([("H", "optref")], [("RA", "ref"), ("RB", "mut")])
+    must_pairs = [(ra_w, ra_r), (ra_r, ra_w), (rb_w, rb_r), (rb_r, rb_w), (ra_w, ra_w), (rb_w, rb_w2), (rb_w2, ra_w)]
+    pc = must_pairs + [p for p in pc if p not in must_pairs]
     if tier == "quick":
         pairs = pc[:36] + pn[:40]
         triples = triples[:40]
